@@ -47,6 +47,11 @@ def gen_cases(tier, seed):
             cases[-1]["init_remove"] = [0] if i % 16 == 2 else [0, 2]
         elif i % 8 == 6:
             cases[-1]["init_appends"] = int(rng.integers(1, 4))     # the existing dataset is itself the result of earlier appends
+        if i % 12 == 9 or i % 12 == 0:
+            # a dataset whose summary lists no row group any more (all were removed): nothing but the summary says what belongs to it
+            cases[-1]["nparts"] = 0
+            cases[-1]["init_remove_all"] = True
+            cases[-1].pop("init_remove", None)
         if i % 3 == 1:
             # the append goes through a handle the caller keeps (ParquetFile.write_row_groups); after a failed append the same handle
             # appends another frame without faults: a fresh open must then see the old rows and that frame, nothing of the failed one
@@ -69,6 +74,9 @@ def _frame(rng, rid0, n, nparts, new_partitions=False):
 def _rids(path):
     import fastparquet
     pf = fastparquet.ParquetFile(path)
+    if not pf.row_groups:
+        import pandas as pd
+        return pd.DataFrame({"rid": np.array([], dtype="int64"), "v": np.array([], dtype="float64"), "s": np.array([], dtype=object)})
     df = pf.to_pandas(index=False)
     return df
 
@@ -131,6 +139,10 @@ def run_case(case):
             if doomed:
                 pf0.remove_row_groups(doomed)
                 counters["scenarios_with_removed_row_groups"] = 1
+        if case.get("init_remove_all"):
+            pf0 = fastparquet.ParquetFile(tmpl)
+            pf0.remove_row_groups(pf0.row_groups)
+            counters["scenarios_with_an_emptied_dataset"] = 1
         old = _rids(tmpl)
         rng = np.random.default_rng([case["seed"], 2])
         new = _frame(rng, 10 ** 6, case["new_rows"], case["nparts"], case["new_partitions"])
@@ -279,7 +291,7 @@ def coverage_extra(agg):
 
 def required(tier):
     return {"faults_fired_raise": 300, "content_checks": 200, "faults_fired_kill": 30, "fired:open_w": 20, "fired:write": 100, "fired:close": 20,
-            "fired:mkdirs": 1, "scenarios_with_ge_11_existing_parts": 3, "scenarios_with_removed_row_groups": 2, "kept_handle_followups": 40}
+            "fired:mkdirs": 1, "scenarios_with_ge_11_existing_parts": 3, "scenarios_with_removed_row_groups": 2, "kept_handle_followups": 40, "scenarios_with_an_emptied_dataset": 2}
 
 
 if __name__ == "__main__":
